@@ -46,6 +46,9 @@ LONG_TEXTS = ["é" * 3000, " " * 9000, "a" * 8191 + "é", "%C3%A9" * 1500, "😀
 HOSTS = ["example.org", "EXAMPLE.org", "é.org", "xn--9ca.org", "::1", "0:0:0:0:0:0:0:1", "fe80::2%en0", "10.0.0.1", "a_b", "bücher.example", "a b", "a/b"]
 TEXTS = ["x", "a b", "a%20b", "é", "..", "x.y", "", "%", "a/b", "k&v=1"]
 SIZES = [0, 1, 2, 8, None, 256, 512]
+STAMPEDE_TEXTS = ["x://:8080/p", "//:77", "x://user@/p", "foo://u:p@:1/?q#f", "http://u:p@h:81/", "http://[fe80::1%eth0]:80/", "https://u@example.com:443/a/b", "ws://:p@h/"]
+STAMPEDE_COPIES = 12
+NETLOC_ACCESSORS = ["raw_host", "host", "authority", "host_subcomponent", "host_port_subcomponent", "raw_user", "explicit_port", "port", "raw_password", "user", "str", "hash"]
 
 
 def plan(tier, seed):
@@ -286,10 +289,24 @@ def run(ctx):
                 u = guarded(URL, t)
                 if not is_exc(u):
                     base.append(twin_from_slots(slots(u)))
+            # stampede objects: many fresh lazily-parsed twins of shapes whose first netloc split takes the rare branches
+            # (empty host under a non-empty authority, userinfo only, IPv6+zone, default port); every thread reads them in the
+            # same order right after the barrier, so first fills of the same object collide
+            n_plain = len(base)
+            for t in STAMPEDE_TEXTS:
+                u = guarded(URL, t, encoded=True)
+                if not is_exc(u):
+                    for _ in range(STAMPEDE_COPIES):
+                        base.append(twin_from_slots(slots(u)))
             cold = [twin_from_slots(slots(u)) for u in base]
             for u in base:
                 mon.publish(u, rd)
-            programs = [[gen_step(random.Random(f"{ctx.seed}/{rd}/{ti}/{k}"), len(base)) for k in range(nsteps)] for ti in range(nthreads)]
+            programs = []
+            for ti in range(nthreads):
+                acc = NETLOC_ACCESSORS[ti % len(NETLOC_ACCESSORS)]
+                acc2 = NETLOC_ACCESSORS[(ti * 3 + 1) % len(NETLOC_ACCESSORS)]
+                stampede = [("read", i, acc) for i in range(n_plain, len(base))] + [("read", i, acc2) for i in range(n_plain, len(base))]
+                programs.append(stampede + [gen_step(random.Random(f"{ctx.seed}/{rd}/{ti}/{k}"), len(base)) for k in range(nsteps)])
             # sequential expectation on cold twins, default caches
             yarl.cache_configure()
             expected = {}
